@@ -551,7 +551,9 @@ class Executor:
                     return False
                 if pred == 'ne':
                     return True
-                raise Unmodelled('ordered pointer compare across regions')
+                # address model (stated): regions are laid out in creation order, null below everything
+                ra = -1 if a.reg is None else a.reg; rb = -1 if b.reg is None else b.reg
+                return {'ult': ra < rb, 'ule': ra < rb, 'ugt': ra > rb, 'uge': ra > rb, 'slt': ra < rb, 'sle': ra < rb, 'sgt': ra > rb, 'sge': ra > rb}[pred]
             return self.icmp(pred, a.off, b.off, 64)
         if isinstance(a, bool):
             a = 1 if a else 0
@@ -1215,8 +1217,18 @@ class Executor:
         raise Unmodelled('intrinsic ' + callee)
 
     # ------------------------------------------------------------------ harness helpers
-    def new_state(self):
-        return State()
+    def new_state(self, run_ctors=True):
+        st = State()
+        if run_ctors:
+            # static initialisers of the linked translation units (e.g. the MemoryPool map) run before the harness function
+            for name in sorted(self.m.funcs):
+                if name.startswith('_GLOBAL__sub_I_'):
+                    res = self.call(name, [], st)
+                    if len(res) != 1 or res[0][1] == 'ABORT':
+                        raise Unmodelled('static initialiser %s did not complete on a single path' % name)
+                    st = res[0][0]
+            self.stats['paths'] = 0
+        return st
 
     def arr(self, st, name, vals, nbytes=8, kind='input'):
         rid = st.new_region(nbytes * max(len(vals), 1), name, kind)
